@@ -148,3 +148,34 @@ def strip_value(f, n):
 def in_loop_stmt(f, n):
     """is node n syntactically nested in a loop statement of f"""
     return any(a["k"] in ("ForStmt", "WhileStmt", "DoStmt", "CXXForRangeStmt") for a in f.ancestors(n))
+
+
+def facts_at(f, pos):
+    """set of (atom key, truth) known at CFG position pos; conjunctions taken true and disjunctions taken
+    false are decomposed into their leaves"""
+    out = set()
+
+    def add(n, truth):
+        x = f.strip(n, casts=False)
+        while x is not None and x["k"] == "ImplicitCastExpr" and x.get("c"):
+            x = f.strip(x["c"][0], casts=False)
+        if x is None:
+            return
+        if x["k"] == "UnaryOperator" and x.get("op") == "!":
+            add(x["c"][0], not truth)
+            return
+        if x["k"] == "BinaryOperator" and x.get("op") == "&&" and truth:
+            add(f.node(x["lhs"]), True)
+            add(f.node(x["rhs"]), True)
+            return
+        if x["k"] == "BinaryOperator" and x.get("op") == "||" and not truth:
+            add(f.node(x["lhs"]), False)
+            add(f.node(x["rhs"]), False)
+            return
+        k, ap = atom(f, x)
+        out.add((k, ap == truth))
+    if pos is None:
+        return out
+    for cn, pol, b in f.edge_conditions(pos):
+        add(cn, pol)
+    return out
